@@ -88,6 +88,16 @@ func runWithSkipperNone(b []byte, api string) (res []string, log []*astits.Packe
 	return res, nil, ""
 }
 
+// AFVarietyStream is the stream with adaptation fields of every kind.
+func AFVarietyStream(seed int64) []byte {
+	for _, s := range c19Streams(seed) {
+		if s.Name == "af-variety" {
+			return s.Bytes
+		}
+	}
+	return nil
+}
+
 // c19Streams: the standard streams plus one with adaptation fields of every kind.
 func c19Streams(seed int64) []*Stream {
 	ss := StandardStreams(seed)
@@ -100,6 +110,18 @@ func c19Streams(seed int64) []*Stream {
 	ps = append(ps, afOnly)
 	ps = append(ps, Packetize(PESUnit(0x300, 0xe0, pesPayload(6, 20, seed), 10, false), nil, &cc, false)...)
 	ss = append(ss, &Stream{Name: "af-variety", Pkts: ps, Bytes: EncodePkts(ps)})
+	{ // a longer multiplex: PAT, PMT, two PES PIDs with several units, a 2-packet SDT (13 packets)
+		ccs := []uint8{0, 0, 4, 9, 15}
+		pat, pmt, sdt := modelPAT(1, 0x1000), modelPMT(1, 0x100, 2), modelSDT(7)
+		lists := [][]*ref.Pkt{
+			Packetize(PSIUnit(0, 0, [][]byte{SecPAT(pat, ref.SecHdr{CNI: true})}, nil), nil, &ccs[0], true),
+			Packetize(PSIUnit(0x1000, 0, [][]byte{SecPMT(pmt, ref.SecHdr{CNI: true})}, nil), nil, &ccs[1], true),
+			append(append(Packetize(PESUnit(0x100, 0xe0, pesPayload(21, 300, seed), 1, false), nil, &ccs[2], false), Packetize(PESUnit(0x100, 0xe0, pesPayload(22, 100, seed), 2, false), nil, &ccs[2], false)...), Packetize(PESUnit(0x100, 0xe0, pesPayload(23, 200, seed), 3, false), nil, &ccs[2], false)...),
+			append(Packetize(PESUnit(0x101, 0xc0, pesPayload(24, 250, seed), 4, true), nil, &ccs[3], false), Packetize(PESUnit(0x101, 0xc0, pesPayload(25, 30, seed), 5, true), nil, &ccs[3], false)...),
+			Packetize(PSIUnit(0x11, 0, [][]byte{SecSDT(sdt, ref.SecHdr{CNI: true})}, nil), nil, &ccs[4], true),
+		}
+		ss = append(ss, BuildStream("mixed-13", lists, roundRobin(lists), nil))
+	}
 	return ss
 }
 
@@ -109,7 +131,7 @@ func checkC19(c *mc.Ctx) {
 	c.Ev.Assumptions = append(c.Ev.Assumptions, "per-packet decisions are implemented by a call counter inside the predicate (the predicate is consulted once per packet in stream order - itself checked)")
 	for _, st := range c19Streams(c.Seed) {
 		n := len(st.Pkts)
-		if n > 14 {
+		if n > 16 {
 			continue
 		}
 		var refPk []*ref.Pkt
